@@ -29,6 +29,13 @@ Contracts (from the property statement; the oracle is a field access or the fiel
   forward vs. not, same types      probe `Ring` has `Deref<Target = Ring>` returning a different static object, so "forwarded"
                                    and "the field itself" type-check alike and are told apart only by the address
 
+  struct-level option inherited    `#[deref(forward)]` / `#[into_iterator(owned, ref, ref_mut)]` on the struct + the selected field carrying its OWN
+                                   bare attribute + siblings `(ignore)`d: the field still forwards / gets all three forms
+  generic sibling                  AsRef/AsMut on a non-generic `Inner` field next to a sibling that alone uses the struct's `T` / `'a`:
+                                   its own type listed through `InnerAlias` is still the field itself (decoy not invoked)
+  mutable forms                    `seen`, the value read through the result BEFORE writing, is the field's old value (non-forward) resp.
+                                   what reading through the field's own deref_mut of a copy gives (forward; `Ring`'s flips `tag`)
+
 All harnesses are loop-free (three/four `next()` calls are written out), hence complete over the field values.
 """
 import random
@@ -109,6 +116,10 @@ pub static RING_DECOY: Ring = Ring { tag: 0x51, pad: 0 };
 impl Deref for Ring {
     type Target = Ring;
     fn deref(&self) -> &Ring { &RING_DECOY }
+}
+/// observable as well: a forwarded `deref_mut` flips `tag` before handing out `self`
+impl DerefMut for Ring {
+    fn deref_mut(&mut self) -> &mut Ring { self.tag = !self.tag; self }
 }
 
 /// Probe collection: iterates `y` first, then `x`; its iterators record where they come from.
@@ -209,6 +220,9 @@ KINDS = {
     "refarr": K("&'a [u8; 3]", "&'x [u8; 3]", "[u8; 3]", mk="&g{i}", val="*v.{f}", lt=True),
     "refbag": K("&'a Bag", "&'x Bag", "Bag", mk="&g{i}", val="*v.{f}", lt=True),
     "arr32": K("[u32; 4]", "[u32; 4]", "[u32; 4]"),
+    # sibling-only kinds: a field that is the ONLY user of the struct's type / lifetime parameter
+    "Tu64": K("T", "u64", "u64", gen="u64"),
+    "refu8": K("&'a u8", "&'x u8", "u8", mk="&g{i}", val="*v.{f}", lt=True),
 }
 ITER_LEN = {"[u8; 3]": 3, "Bag": 2}
 
@@ -221,26 +235,33 @@ def sub(t, **kw):
 
 
 class Shape:
-    """A struct definition `S` with n equal-typed fields and helpers to talk about it in Rust."""
+    """A struct definition `S` with n fields (equal-typed unless `fkinds` gives a kind per field: siblings of another
+    type that alone use the struct's generic parameters) and helpers to talk about it in Rust."""
 
-    def __init__(self, shape, n, kind, field_attrs, struct_attrs, derives, tys=None):
+    def __init__(self, shape, n, kind, field_attrs, struct_attrs, derives, tys=None, fkinds=None):
         self.shape, self.n, self.kind = shape, n, kind
         k = KINDS[kind]
         self.k = k
+        self.ks = [KINDS[x] for x in (fkinds or [kind] * n)]
+        assert len(self.ks) == n
         self.acc = [str(i) if shape == "tuple" else "f%d" % i for i in range(n)]
-        self.tys = tys or [k["ty"]] * n
+        self.tys = tys or [x["ty"] for x in self.ks]
         self.field_attrs = field_attrs
         self.struct_attrs = struct_attrs
         self.derives = derives
         gp, gx, gh = [], [], []
-        if k["lt"]:
+        self.lt = any(x["lt"] for x in self.ks)
+        gens = sorted({x["gen"] for x in self.ks if x["gen"]})
+        assert len(gens) <= 1
+        self.gen = gens[0] if gens else None
+        if self.lt:
             gp.append("'a"); gx.append("'x"); gh.append("'_")
-        if k["gen"]:
-            gp.append("T"); gx.append(k["gen"]); gh.append(k["gen"])
+        if self.gen:
+            gp.append("T"); gx.append(self.gen); gh.append(self.gen)
         self.gdecl = "<%s>" % ", ".join(gp) if gp else ""
         self.st = "S" + ("<%s>" % ", ".join(gx) if gx else "")      # in fn signatures
         self.sth = "S" + ("<%s>" % ", ".join(gh) if gh else "")     # in harness bodies
-        self.fng = "<'x>" if k["lt"] else ""
+        self.fng = "<'x>" if self.lt else ""
         self.cty = k["cty"]
         self.ctyh = k["cty"].replace("'x ", "")
         self.base = k["base"]
@@ -260,25 +281,31 @@ class Shape:
         return t.replace("pub ", "")
 
     def setup(self, ind="        "):
-        return "".join("%slet mut g%d: %s = kani::any(); let h%d = g%d;\n" % (ind, i, self.base, i, i) for i in range(self.n))
+        return "".join("%slet mut g%d: %s = kani::any(); let h%d = g%d;\n" % (ind, i, self.ks[i]["base"], i, i) for i in range(self.n))
 
     def ctor(self):
-        es = [self.k["mk"].format(i=i) for i in range(self.n)]
+        es = [self.ks[i]["mk"].format(i=i) for i in range(self.n)]
         if self.shape == "tuple":
             return "S(%s)" % ", ".join(es)
         return "S { %s }" % ", ".join("%s: %s" % (self.acc[i], es[i]) for i in range(self.n))
 
     def old(self):
-        return "&[%s]" % ", ".join("h%d" % i for i in range(self.n))
+        return "&(%s,)" % ", ".join("h%d" % i for i in range(self.n))
 
     def oldty(self):
-        return "&[%s; %d]" % (self.base, self.n)
+        return "&(%s,)" % ", ".join(x["base"] for x in self.ks)
+
+    def cty_i(self, i):
+        return self.ks[i]["cty"]
+
+    def base_i(self, i):
+        return self.ks[i]["base"]
 
     def val(self, i):
-        return self.k["val"].format(f=self.acc[i])
+        return self.ks[i]["val"].format(f=self.acc[i])
 
     def neighbours_unchanged(self, sel):
-        return " && ".join("%s == old[%d]" % (self.val(j), j) for j in range(self.n) if j != sel) or "true"
+        return " && ".join("%s == old.%d" % (self.val(j), j) for j in range(self.n) if j != sel) or "true"
 
 
 def sel_attrs(attr, n, sel, mode, arg=None):
@@ -358,7 +385,7 @@ def prog_deref(shape, n, sel, mode, fw, kind, contract=False, control=False):
     """fw: 'no' | 'struct' (#[deref(forward)] on the struct) | 'field' (#[deref(forward)] on the selected field).
     """
     k = KINDS[kind]
-    with_mut = kind in ("inner", "T") or (fw != "no" and kind in ("mutref", "box"))
+    with_mut = kind in ("inner", "T", "ring") or (fw != "no" and kind in ("mutref", "box"))
     arg = "forward" if fw == "field" else None
     fa = sel_attrs("deref", n, sel, mode, arg)
     sa = ["#[deref(forward)]"] if fw == "struct" else []
@@ -391,23 +418,29 @@ pub fn post_deref@FNG@(v: &@ST@, r: &@TGT@) -> bool { ptr::eq(r, <@CTY@ as Deref
     hs.append(Harness("ob_deref", ob, fn="<S as Deref>::deref"))
     if with_mut:
         if not fwd:
-            posts.append(sub('''/// post of `deref_mut`: `rp` (address of the result) is the field `@F@`; the value written through it is in the field; neighbours untouched.
-pub fn post_deref_mut(v: &@ST@, rp: *const @TGT@, fresh: &@TGT@, old: @OLDTY@) -> bool {
-    ptr::eq(rp, &v.@F@) && v.@F@ == *fresh && @NB@
-}''', ST=S.st, TGT=tgt, F=f, OLDTY=S.oldty(), NB=S.neighbours_unchanged(sel)))
+            posts.append(sub('''/// post of `deref_mut`: `rp` (address of the result) is the field `@F@`; `seen` (read through the result before writing) is the field's old
+/// value (no forwarded call happened); the value written through it is in the field; neighbours untouched.
+pub fn post_deref_mut(v: &@ST@, rp: *const @TGT@, seen: &@TGT@, fresh: &@TGT@, old: @OLDTY@) -> bool {
+    ptr::eq(rp, &v.@F@) && *seen == old.@SEL@ && v.@F@ == *fresh && @NB@
+}''', ST=S.st, TGT=tgt, F=f, SEL=sel, OLDTY=S.oldty(), NB=S.neighbours_unchanged(sel)))
             vref = "&v"
             ob = "forall field values, fresh. r = deref_mut(&mut v); *r = fresh  =>  ptr::eq(r, &v.%s) && v.%s == fresh && neighbours unchanged" % (f, f)
         else:
-            if kind in ("inner", "T"):
-                expect = "{ let mut exp = old[%d]; *<Inner as DerefMut>::deref_mut(&mut exp) = *fresh; %s == exp }" % (sel, S.val(sel))
+            if kind in ("inner", "T", "ring"):
+                expect = "{ let mut exp = old.%d; *<%s as DerefMut>::deref_mut(&mut exp) = *fresh; %s == exp }" % (sel, S.base, S.val(sel))
+                seen_ok = "*seen == { let mut c = old.%d; *<%s as DerefMut>::deref_mut(&mut c) }" % (sel, S.base)
             else:
                 expect = "%s == *fresh" % S.val(sel)
-            posts.append(sub('''/// post of forwarding `deref_mut`: `rp` is what the field type's own `deref_mut` returns for `v.@F@`; the write through it
-/// had the effect the field's own `deref_mut` has on a copy; neighbours untouched.
-pub fn post_deref_mut@FNG@(v: &mut @ST@, rp: *const @TGT@, fresh: &@TGT@, old: @OLDTY@) -> bool {
-    let op = <@CTY@ as DerefMut>::deref_mut(&mut v.@F@) as *const @TGT@;
-    rp == op && @EXPECT@ && @NB@
-}''', FNG=S.fng, ST=S.st, TGT=tgt, F=f, CTY=S.cty, OLDTY=S.oldty(), EXPECT=expect, NB=S.neighbours_unchanged(sel)))
+                seen_ok = "*seen == old.%d" % sel
+            posts.append(sub('''/// post of forwarding `deref_mut`: `rp` is what the field type's own `deref_mut` returns for `v.@F@`; `seen` (read through the result
+/// before writing) is what reading through the field's own `deref_mut` of a copy gives; the write through it had the effect the
+/// field's own `deref_mut` has on a copy; neighbours untouched.
+pub fn post_deref_mut@FNG@(v: &mut @ST@, rp: *const @TGT@, seen: &@TGT@, fresh: &@TGT@, old: @OLDTY@) -> bool {
+    let effect_ok = @EXPECT@ && @NB@;
+    let seen_ok = @SEENOK@;
+    let op = <@CTY@ as DerefMut>::deref_mut(&mut v.@F@) as *const @TGT@;   // last: a probe's own deref_mut may touch the field
+    rp == op && seen_ok && effect_ok
+}''', FNG=S.fng, ST=S.st, TGT=tgt, F=f, CTY=S.cty, OLDTY=S.oldty(), EXPECT=expect, SEENOK=seen_ok, NB=S.neighbours_unchanged(sel)))
             vref = "&mut v"
             ob = "forall field values, fresh. r = deref_mut(&mut v); *r = fresh  =>  r == <%s as DerefMut>::deref_mut(&mut v.%s) && effect == effect of the field's own deref_mut && neighbours unchanged" % (S.ctyh, f)
         hsrc.append(sub('''    #[kani::proof]
@@ -416,8 +449,9 @@ pub fn post_deref_mut@FNG@(v: &mut @ST@, rp: *const @TGT@, fresh: &@TGT@, old: @
         let fresh: @TGTH@ = kani::any();
         let r = <@STH@ as DerefMut>::deref_mut(&mut v);
         let rp = &*r as *const @TGTH@;
+        let seen = *r;
         *r = fresh;
-        assert!(post_deref_mut(@VREF@, rp, &fresh, @OLD@), "post_deref_mut");
+        assert!(post_deref_mut(@VREF@, rp, &seen, &fresh, @OLD@), "post_deref_mut");
     }''', SETUP=S.setup(), CTOR=S.ctor(), STH=S.sth, TGTH=tgth, VREF=vref, OLD=S.old()))
         hs.append(Harness("ob_deref_mut", ob, fn="<S as DerefMut>::deref_mut"))
     if contract:
@@ -467,7 +501,7 @@ pub fn post_index_@NM@(v: &@ST@, i: @ITY@, r: &@OUT@) -> bool { ptr::eq(r, <@CTY
 /// post of `index_mut`: same place as the field type's own `index_mut`; the write had the effect the field's own `index_mut` has on a copy.
 pub fn post_index_mut_@NM@(v: &mut @ST@, i: @ITY@, rp: *const @OUT@, fresh: &@OUT@, old: @OLDTY@) -> bool {
     let op = <@CTY@ as IndexMut<@ITY@>>::index_mut(&mut v.@F@, i) as *const @OUT@;
-    rp == op && { let mut exp = old[@SEL@]; *<@BASE@ as IndexMut<@ITY@>>::index_mut(&mut exp, i) = *fresh; @VAL@ == exp } && @NB@
+    rp == op && { let mut exp = old.@SEL@; *<@BASE@ as IndexMut<@ITY@>>::index_mut(&mut exp, i) = *fresh; @VAL@ == exp } && @NB@
 }''', ITY=ity, OUT=out, NM=nm, ST=S.st, CTY=S.cty, F=f, OLDTY=S.oldty(), SEL=sel, BASE=S.base, VAL=S.val(sel),
                          NB=S.neighbours_unchanged(sel)))
         if pre:
@@ -571,7 +605,7 @@ pub fn post_iter_ref<'x>(v: &'x @ST@, mut it: <&'x @ST@ as IntoIterator>::IntoIt
 /// field's own iterator produce on a copy; neighbours untouched.
 pub fn post_iter_mut(v: &mut @ST@, seen: &[*const u8; @L1@], fresh: &[u8; @L@], old: @OLDTY@) -> bool {
     let same_places = { let mut own = <&mut @CTY@ as IntoIterator>::into_iter(&mut v.@F@); @OWNSTEPS@ };
-    let mut exp = old[@SEL@];
+    let mut exp = old.@SEL@;
     { let mut e = <&mut @BASE@ as IntoIterator>::into_iter(&mut exp); @EXPSTEPS@ }
     same_places && seen[@L@].is_null() && @VAL@ == exp && @NB@
 }''', F=f, ST=S.st, CTY=S.cty, L=L, L1=L + 1, OLDTY=S.oldty(), SEL=sel, BASE=S.base, OWNSTEPS=own_steps, EXPSTEPS=exp_steps,
@@ -632,7 +666,7 @@ XNAME = {"u32": "u32", "u16": "u16", "Inner": "inner", "InnerAlias": "alias", "T
 FWD_TYPES = ("u32", "u16")
 
 
-def prog_asref(key, shape, kind, convs, struct_conv=None, muts=True, tys=None, bases=None):
+def prog_asref(key, shape, kind, convs, struct_conv=None, muts=True, tys=None, fkinds=None):
     """convs[i]: None (no attribute) | '' (#[as_ref]) | 'skip' | 'ignore' | 'forward' | 'Ty, Ty, ..' for field i.
     struct_conv: None | 'forward' | 'Ty, ..' (only with one field)."""
     n = len(convs)
@@ -644,7 +678,7 @@ def prog_asref(key, shape, kind, convs, struct_conv=None, muts=True, tys=None, b
             if c is not None:
                 fa[i] = fa[i] + ["#[%s]" % nm if c == "" else "#[%s(%s)]" % (nm, c)]
     sa = ["#[%s(%s)]" % (nm, struct_conv) for nm in names] if struct_conv else []
-    S = Shape(shape, n, kind, fa, sa, ["AsRef"] + (["AsMut"] if muts else []), tys=tys)
+    S = Shape(shape, n, kind, fa, sa, ["AsRef"] + (["AsMut"] if muts else []), tys=tys, fkinds=fkinds)
     # which impls exist: (field, X as written, identity?)
     impls = []
     all_skip = all(c in (None, "skip", "ignore") for c in convs)
@@ -665,7 +699,7 @@ def prog_asref(key, shape, kind, convs, struct_conv=None, muts=True, tys=None, b
         elif conv == "forward":
             for x in FWD_TYPES:
                 impls.append((i, x, "forwarded", True))
-            if kind == "inner":
+            if fty == "Inner":
                 impls.append((i, "Inner", "forwarded", False))   # blanket forward REACHES the decoy (AsRef only: it is pure)
         else:
             for x in [t.strip() for t in conv.split(",")]:
@@ -675,9 +709,11 @@ def prog_asref(key, shape, kind, convs, struct_conv=None, muts=True, tys=None, b
     for (i, x, how, mut_ok) in impls:
         f = S.acc[i]
         xn = "f%d_%s" % (i, XNAME[x])
-        xc = {"T": k["gen"] or "T", "&'a Inner": "&'x Inner", "&'a mut Inner": "&'x mut Inner"}.get(x, x)   # concrete X in fn context
+        xc = {"T": S.ks[i]["gen"] or "T", "&'a Inner": "&'x Inner", "&'a mut Inner": "&'x mut Inner"}.get(x, x)   # concrete X in fn context
         xh = xc.replace("'x ", "")
-        base_i = S.base
+        base_i = S.base_i(i)
+        cty_i = S.cty_i(i)
+        ctyh_i = cty_i.replace("'x ", "")
         if how == "identity":
             decoy = " && !ptr::eq(r, &DECOY)" if xc in ("Inner", "InnerAlias") else ""
             posts.append(sub('''/// post of the generated `<S as AsRef<@X@>>::as_ref(v)` (`@X@` IS the type of field `@F@`): the field itself, not a forwarded call.
@@ -687,8 +723,8 @@ pub fn post_as_ref_@XN@@FNG@(v: &@ST@, r: &@XC@) -> bool { ptr::eq(r, &v.@F@)@DE
         else:
             posts.append(sub('''/// post of the generated `<S as AsRef<@X@>>::as_ref(v)`: exactly what the field type's own `AsRef<@X@>` returns for `v.@F@`.
 pub fn post_as_ref_@XN@@FNG@(v: &@ST@, r: &@XC@) -> bool { ptr::eq(r, <@CTY@ as AsRef<@XC@>>::as_ref(&v.@F@)) }''',
-                             X=x, F=f, XN=xn, FNG=S.fng, ST=S.st, XC=xc, CTY=S.cty))
-            ob = "forall field values. ptr::eq(<S as AsRef<%s>>::as_ref(&v), <%s as AsRef<%s>>::as_ref(&v.%s))" % (x, S.ctyh, x, f)
+                             X=x, F=f, XN=xn, FNG=S.fng, ST=S.st, XC=xc, CTY=cty_i))
+            ob = "forall field values. ptr::eq(<S as AsRef<%s>>::as_ref(&v), <%s as AsRef<%s>>::as_ref(&v.%s))" % (x, ctyh_i, x, f)
         hsrc.append(sub('''    #[kani::proof]
     fn ob_as_ref_@XN@() {
 @SETUP@        let v = @CTOR@;
@@ -701,9 +737,9 @@ pub fn post_as_ref_@XN@@FNG@(v: &@ST@, r: &@XC@) -> bool { ptr::eq(r, <@CTY@ as 
         if how == "identity":
             posts.append(sub('''/// post of `<S as AsMut<@X@>>::as_mut(v)`: `rp` is the field `@F@` itself; `seen` (read through the result before writing) is the field's
 /// old value, i.e. the probe's decoy `AsMut<Inner>` (which flips `a`) was not invoked; the written value is in the field; neighbours untouched.
-pub fn post_as_mut_@XN@(v: &@ST@, rp: *const @XC@, seen: &@XC@, fresh: &@XC@, old: @OLDTY@) -> bool {
-    ptr::eq(rp, &v.@F@) && *seen == old[@I@] && v.@F@ == *fresh && @NB@
-}''', X=x, F=f, XN=xn, ST=S.st, XC=xc, OLDTY=S.oldty(), I=i, NB=S.neighbours_unchanged(i)))
+pub fn post_as_mut_@XN@@FNG@(v: &@ST@, rp: *const @XC@, seen: &@XC@, fresh: &@XC@, old: @OLDTY@) -> bool {
+    ptr::eq(rp, &v.@F@) && *seen == old.@I@ && v.@F@ == *fresh && @NB@
+}''', X=x, F=f, XN=xn, FNG=S.fng, ST=S.st, XC=xc, OLDTY=S.oldty(), I=i, NB=S.neighbours_unchanged(i)))
             hsrc.append(sub('''    #[kani::proof]
     fn ob_as_mut_@XN@() {
 @SETUP@        let mut v = @CTOR@;
@@ -720,8 +756,8 @@ pub fn post_as_mut_@XN@(v: &@ST@, rp: *const @XC@, seen: &@XC@, fresh: &@XC@, ol
 /// field's own `as_mut` has on a copy; neighbours untouched.
 pub fn post_as_mut_@XN@@FNG@(v: &mut @ST@, rp: *const @XC@, fresh: &@XC@, old: @OLDTY@) -> bool {
     let op = <@CTY@ as AsMut<@XC@>>::as_mut(&mut v.@F@) as *const @XC@;
-    rp == op && { let mut exp = old[@I@]; *<@BASE@ as AsMut<@XC@>>::as_mut(&mut exp) = *fresh; @VAL@ == exp } && @NB@
-}''', X=x, F=f, XN=xn, FNG=S.fng, ST=S.st, XC=xc, CTY=S.cty, OLDTY=S.oldty(), I=i, BASE=base_i, VAL=S.val(i),
+    rp == op && { let mut exp = old.@I@; *<@BASE@ as AsMut<@XC@>>::as_mut(&mut exp) = *fresh; @VAL@ == exp } && @NB@
+}''', X=x, F=f, XN=xn, FNG=S.fng, ST=S.st, XC=xc, CTY=cty_i, OLDTY=S.oldty(), I=i, BASE=base_i, VAL=S.val(i),
                              NB=S.neighbours_unchanged(i)))
             hsrc.append(sub('''    #[kani::proof]
     fn ob_as_mut_@XN@() {
@@ -732,9 +768,34 @@ pub fn post_as_mut_@XN@@FNG@(v: &mut @ST@, rp: *const @XC@, fresh: &@XC@, old: @
         *r = fresh;
         assert!(post_as_mut_@XN@(&mut v, rp, &fresh, @OLD@), "post_as_mut");
     }''', XN=xn, SETUP=S.setup(), CTOR=S.ctor(), STH=S.sth, XH=xh, OLD=S.old()))
-            ob = "forall field values, fresh. *<S as AsMut<%s>>::as_mut(&mut v) = fresh  =>  same place and same effect as <%s as AsMut<%s>>::as_mut(&mut v.%s); neighbours unchanged" % (x, S.ctyh, x, f)
+            ob = "forall field values, fresh. *<S as AsMut<%s>>::as_mut(&mut v) = fresh  =>  same place and same effect as <%s as AsMut<%s>>::as_mut(&mut v.%s); neighbours unchanged" % (x, ctyh_i, x, f)
         hs.append(Harness("ob_as_mut_" + xn, ob, fn="<S as AsMut<%s>>::as_mut" % x))
     return finish(key, S, posts, hsrc, hs)
+
+
+def asref_sibling_programs(full):
+    """The struct's type / lifetime parameter is used ONLY by a sibling field; the selected field is the non-generic `Inner`.
+    Its own type listed through the alias must still go through the autoref specialisation (identity), listed directly it is
+    Direct, other listed types are forwarded."""
+    P = []
+    specs = [
+        ("asref_t2_sibT_ty_u32_alias", "tuple", ["inner", "Tu64"], ["u32, InnerAlias", None]),
+        ("asref_n3_sibLt_ty_alias", "named", ["refu8", "inner", "inner"], [None, "InnerAlias", None]),
+    ]
+    if full:
+        specs += [
+            ("asref_n2_sibT_ty_alias", "named", ["Tu64", "inner"], [None, "InnerAlias"]),
+            ("asref_t3_sibT_ty_u16_alias", "tuple", ["inner", "inner", "Tu64"], [None, "u16, InnerAlias", None]),
+            ("asref_t2_sibLt_ty_u32_alias", "tuple", ["inner", "refu8"], ["u32, InnerAlias", None]),
+            ("asref_n2_sibT_ty_inner", "named", ["inner", "Tu64"], ["u16, Inner", None]),
+            ("asref_t2_sibLt_ty_inner", "tuple", ["refu8", "inner"], [None, "Inner"]),
+            ("asref_t2_sibT_plain", "tuple", ["Tu64", "inner"], [None, ""]),
+            ("asref_n2_sibLt_fwd", "named", ["inner", "refu8"], ["forward", None]),
+            ("asref_t3_sibT_skip", "tuple", ["Tu64", "inner", "inner"], ["skip", None, "skip"]),
+        ]
+    for key, shape, fk, convs in specs:
+        P.append(prog_asref(key, shape, "inner", convs, fkinds=fk))
+    return P
 
 
 def conv_tag(conv):
@@ -796,6 +857,11 @@ def quick_programs():
     P.append(prog_deref("named", 2, 1, "attr", "no", "ring"))
     P.append(prog_deref("tuple", 2, 0, "ign", "struct", "ring"))
     P.append(prog_deref("tuple", 1, 0, "attr", "field", "ring"))
+    # struct-level option + the selected field ALSO carries its own bare attribute + siblings ignored: the field must inherit `forward`
+    P.append(prog_deref("named", 2, 1, "attr_ign", "struct", "ring"))
+    P.append(prog_deref("tuple", 1, 0, "attr", "struct", "ring"))
+    P.append(prog_deref("tuple", 3, 2, "attr_ign", "struct", "inner"))
+    P.append(prog_deref("named", 2, 0, "attr_ign", "struct", "box"))
     # Index / IndexMut
     P.append(prog_index("tuple", 1, 0, "sole", "inner"))
     P.append(prog_index("named", 2, 0, "attr", "inner"))
@@ -809,6 +875,8 @@ def quick_programs():
     P.append(prog_iter("tuple", 3, 0, "ign", "allS", "bag"))
     P.append(prog_iter("named", 3, 2, "attr", "refsF", "bag"))
     P.append(prog_iter("tuple", 2, 0, "attr", "allF", "Tarr"))
+    P.append(prog_iter("named", 2, 1, "attr_ign", "allS", "bag"))     # struct-level list + bare #[into_iterator] on the field: list inherited
+    P.append(prog_iter("tuple", 1, 0, "attr", "refsS", "arr"))
     # AsRef / AsMut
     P.append(asref_sel("tuple", 1, 0, "sole", ""))
     P.append(asref_sel("named", 2, 1, "attr", ""))
@@ -824,6 +892,7 @@ def quick_programs():
     P.append(prog_asref("asref_t3_two_lists_inner", "tuple", "inner", ["u32, InnerAlias", "u16", None]))
     P.append(asref_sel("tuple", 2, 1, "attr", "T", kind="T"))
     P.append(asref_sel("named", 2, 0, "attr", "u32", kind="T"))
+    P += asref_sibling_programs(False)
     return P
 
 
@@ -917,6 +986,7 @@ def thorough_programs(seed):
     P.append(prog_asref("asref_t2_two_lists_swapped_inner", "tuple", "inner", ["u16", "u32"]))
     P.append(prog_asref("asref_n3_three_lists_inner", "named", "inner", ["u16", "InnerAlias", "u32"]))
     P.append(prog_asref("asref_t2_two_lists_T", "tuple", "T", ["u16", "u32"]))
+    P += asref_sibling_programs(True)
     # random tail: extra configurations drawn with the seed (field kind x shape x selection)
     seen = {p.key for p in P}
     tail = []
